@@ -20,6 +20,8 @@ def run(cx):
     cx.rule("C15.R1", "K2", "SubflowPackage::execute: auto-complete off before start; inputs = fill_inputs(options) + the two parent-link keys; start's error is propagated")
     cx.rule("C15.R2", "K5", "return_to_act: Aborted->Abort, Skipped->Skip, Error->Error (with the child's code and message), otherwise Next; options = child outputs")
     cx.rule("C15.R3", "K1", "the return is made exactly on the terminal edge of on_proc, before the child is removed; an act with auto-complete off is not completed by Act::next")
+    cx.rule("C15.R4", "K1", "the returned action is not refused for its content: in the Next / Abort / Skip / Error arms Task::update refuses only for the state of a task, a missing parent, or the absence of the error-code key (which the return always sets)")
+    r4_accepts(cx)
     m = cx.m
     pa = Prov(m, "alias")
     pv = Prov(m, "value")
@@ -147,3 +149,76 @@ def _from_outputs(f, pa, r):
     if r[0] == "local":
         return any(d[2] == "call" and (d[3][1].get("q") or "").endswith("Process::outputs") for d in f.defs().get(r[1], []))
     return False
+
+
+
+RETURN_EVENTS = {"Next", "Abort", "Skip", "Error"}
+ABSENCE_ONLY = re.compile(r"(Context::get_var(::<.*>)?|Task::parent|Context::action)$")
+
+
+def r4_accepts(cx):
+    m = cx.m
+    pa = Prov(m, "alias")
+    pv = Prov(m, "value")
+    f = m.one(r"^acts::scheduler::process::task::Task::update$")
+
+    def arm_of(b):
+        arms = None
+        for g in guards_of(m, f, b, mode="alias"):
+            if g.root[0] == "discr":
+                vs = discr_variants(m, g)
+                if vs and vs <= {"Push", "Remove", "Submit", "Next", "Back", "Cancel", "Abort", "Skip", "Error", "SetVars", "SetProcessVars"} and not (vs <= {"Continue", "Break"}):
+                    r = g.root[1]
+                    if r[0] in ("call", "local", "param") and (r[3][-1:] == ("event",) or "event" in r[3]):
+                        arms = vs if arms is None else (arms & vs)
+        return arms
+
+    n = 0
+    for c in f.calls():
+        if not re.search(r"Option::<.*>::ok_or(_else)?$", c.q):
+            continue
+        arms = arm_of(c.b)
+        if arms is None or not (arms & RETURN_EVENTS):
+            continue
+        n += 1
+        r = pa.root(f, c.args[0])
+        ok = r[0] == "call" and bool(ABSENCE_ONLY.search(r[1])) and not r[3]
+        what = short_name(r[1]) if r[0] == "call" else root_str(r)
+        key = None
+        if ok and "get_var" in r[1]:
+            k = pv.root(f, Call(f, r[2]).args[1])
+            key = (k[1].get("named") or k[1].get("str") or "?").split("::")[-1] if k[0] == "const" else "?"
+            if "Error" in arms:
+                ok = key == "ACT_ERR_CODE"
+        armn = "/".join(sorted(arms))
+        if ok:
+            desc = "in the %s arm Task::update fails when `%s`%s is absent - and only then: the option is taken as it comes, no filter or test of its value stands between the lookup and the refusal" % (armn, what, "(%s)" % key if key else "")
+        else:
+            desc = ("in the %s arm Task::update refuses on the result of `%s`%s, not on the plain absence of an option / parent: the return of a child is refused for its content "
+                    "(a child that ends with an engine-raised error returns an empty code) and the calling act stays open" % (armn, what, "(%s)" % key if key else ""))
+        cx.ob("C15.R4", "update:%s:requires:%s%s" % (armn, what.split("::<")[0], "(%s)" % key if key else ""), ok, desc, c.loc)
+    for b, kind in f.exit_defs():
+        if kind != "ERR_NEW":
+            continue
+        arms = arm_of(b)
+        if arms is None or not (arms & RETURN_EVENTS):
+            continue
+        n += 1
+        extra = []
+        for g in guards_of(m, f, b, mode="alias"):
+            if g.neutral:
+                continue
+            r = g.root
+            if r[0] == "discr":
+                continue
+            if r[0] == "call" and T.STATE_PRED.match(r[1]):
+                continue
+            extra.append(gdesc(m, g))
+        cx.ob("C15.R4", "update:%s:refusal@%s" % ("/".join(sorted(arms)), _nth(f, b)), not extra,
+              "a refusal raised in the %s arm depends only on task states%s" % ("/".join(sorted(arms)), "" if not extra else " - but also on %s" % extra), f.loc(b))
+    cx.floor("C15.R4", 6)
+
+
+def _nth(f, b):
+    bs = [x for x, k in f.exit_defs() if k == "ERR_NEW"]
+    return "#%d" % bs.index(b)
